@@ -82,7 +82,7 @@ func leave() {
 	}
 }
 
-var strPairs = [][2]string{{"X ", "  "}, {"1", "0"}, {"##", ".."}, {"x", "_"}}
+var strPairs = [][2]string{{"X ", "  "}, {"1", "0"}, {"##", ".."}, {"x", "_"}, {"X ", "."}, {"#", "  "}, {"[1]", "0"}, {"o", "--"}}
 var lineSeps = []string{"\n", "\r\n", "\r", "\n\n"}
 
 func intsEq(a, b []int) bool {
@@ -867,7 +867,7 @@ func gen16(c *kit.Ctx) *Trace16 {
 	case 1:
 		add(Op16{K: "mbool", A: 0, W: pw, H: ph, V: r.Uint64()})
 	default:
-		add(Op16{K: "mstr", A: 0, W: pw, H: ph, V: r.Uint64(), X: r.Intn(4), Y: r.Intn(4)})
+		add(Op16{K: "mstr", A: 0, W: pw, H: ph, V: r.Uint64(), X: r.Intn(8), Y: r.Intn(4)})
 	}
 	add(Op16{K: "anew", A: 0, W: pa})
 	if pa > 0 {
@@ -908,7 +908,7 @@ func gen16(c *kit.Ctx) *Trace16 {
 			} else {
 				op.W, op.H = biasedDim(r, 130), r.Range(1, 8)
 			}
-			op.V, op.X, op.Y = r.Uint64(), r.Intn(4), r.Intn(4)
+			op.V, op.X, op.Y = r.Uint64(), r.Intn(8), r.Intn(4)
 		case "msquare":
 			op.W = biasedDim(r, 70)
 		case "mrand", "arand":
@@ -943,7 +943,7 @@ func gen16(c *kit.Ctx) *Trace16 {
 				op.B = -1
 			}
 		case "mstring":
-			op.X, op.Y = r.Intn(4), r.Intn(4)
+			op.X, op.Y = r.Intn(8), r.Intn(4)
 		case "anew":
 			switch r.Intn(4) {
 			case 0:
